@@ -3,6 +3,7 @@ package props
 import (
 	"encoding/json"
 	"fmt"
+	"math/rand/v2"
 	"strings"
 
 	"verif/internal/gen"
@@ -17,9 +18,9 @@ func init() {
 			"Query(P S, doc) is compared with the concatenation over x in Query(P, doc) of Query($ S, x); variable and literal heads are compared with $ on the same value; " +
 			"the H1/H2 hooks assert on every execution that @, last, $, the keyvalue base object and the structural-error flag are restored at every step exit and call end. " +
 			"Non-trivial: Query(P) yields at least one item; distinct by (path, split point, document, decoding)",
-		Run:    runC09,
-		Replay: replayC09,
-		MinExercised: map[string]int64{"split.items": 5000, "split.err": 500, "P-fails": 200, "var-head": 1000, "literal-head": 300, "context": 10000, "quiescent": 10000},
+		Run:          runC09,
+		Replay:       replayC09,
+		MinExercised: map[string]int64{"split.items": 5000, "split.err": 500, "P-fails": 200, "var-head": 1000, "outer-current": 5000, "literal-head": 300, "context": 10000, "quiescent": 10000},
 		Assumptions: []string{
 			"S contains no $ (root-independent); strict-mode splits whose prefix contains .** are excluded (the structural-error flag legitimately spans the continuation); keyvalue ids are masked (base object differs)",
 			"paths that expand object members get single-member objects so that the executions are comparable",
@@ -261,6 +262,177 @@ func checkHead(c *h.Ctx, lax bool, head *gen.N, steps *gen.N, valueJSON string, 
 	}
 }
 
+// atToRoot returns a copy of the chain in which every @ that belongs to the
+// chain's own filter level (not to a filter nested inside it) is replaced by $.
+func atToRoot(n *gen.N) *gen.N {
+	if n == nil {
+		return nil
+	}
+	m := *n
+	if m.K == gen.KCurrent {
+		m.K = gen.KRoot
+	}
+	if n.K != gen.KFilter {
+		m.A = atToRoot(n.A)
+	}
+	m.B = atToRoot(n.B)
+	if n.Subs != nil {
+		m.Subs = make([][2]*gen.N, len(n.Subs))
+		for i, sb := range n.Subs {
+			m.Subs[i] = [2]*gen.N{atToRoot(sb[0]), atToRoot(sb[1])}
+		}
+	}
+	m.Next = atToRoot(n.Next)
+	return &m
+}
+
+// checkOuterCurrent: in the filter $ ? (exists(@ STEPS)) applied to a document
+// D that the filter does not unwrap, @ at the filter's own level denotes D,
+// i.e. what $ denotes - also in the steps that follow a nested filter or a
+// nested subscript. So the filter keeps D exactly if Exists($ STEPS', D) is
+// true, where STEPS' has those @ replaced by $.
+func checkOuterCurrent(c *h.Ctx, lax bool, chain *gen.N, docTxt string, useNum bool, vars string) {
+	f1 := &gen.N{K: gen.KRoot, Next: &gen.N{K: gen.KFilter, A: &gen.N{K: gen.KUn, S: "exists", A: chain.Clone()}}}
+	t1 := gen.Spell(&gen.Path{Lax: lax, Root: f1}, nil)
+	t2 := gen.Spell(&gen.Path{Lax: lax, Root: atToRoot(chain)}, nil)
+	cs := h.Case{Kind: "outer-current", Path: t1, Doc: docTxt, UseNum: useNum, Vars: vars, Extra: map[string]string{"with-root": t2}}
+	p1, e1, pn1 := h.ParseSafe(t1)
+	p2, e2, pn2 := h.ParseSafe(t2)
+	if e1 != nil || e2 != nil || pn1+pn2 != "" {
+		c.Count("gen.unparsable", 1)
+		return
+	}
+	doc := h.Decode(docTxt, useNum)
+	if _, isArr := doc.([]any); isArr && lax {
+		c.Skip("outer-current", "lax-filter-unwraps-document")
+		return
+	}
+	opts := h.Opts{Vars: h.DecodeVars(vars, useNum)}
+	o1 := h.Call("query", p1, doc, opts)
+	o2 := h.Call("exists", p2, doc, opts)
+	c.Eval(2)
+	if o1.Class == h.Panic || o2.Class == h.Panic {
+		c.Skip("outer-current", "panic-is-C05")
+		return
+	}
+	if o2.Class == h.OK && o2.Bool {
+		c.Distinct(t1, docTxt, fmt.Sprint(useNum))
+	}
+	feat := h.F("mode", modeName(lax))
+	var want string
+	switch {
+	case o2.Class == h.OK && o2.Bool:
+		want = "[" + h.Canon(doc) + "]"
+	case o2.Class == h.OK || o2.Class == h.Soft:
+		want = "[]"
+	default:
+		want = o2.Class + ":" + o2.ErrText()
+	}
+	got := o1.Class + ":" + o1.ErrText()
+	if o1.Class == h.OK {
+		got = h.CanonList(o1.Items)
+	}
+	if got != want {
+		c.Violate("outer-current", feat, fmt.Sprintf("Query(%s) = %s but Exists(%s) = %s on the same document", t1, o1.Summary(), t2, o2.Summary()), cs)
+		return
+	}
+	c.Held("outer-current")
+	if c.WantSample("outer-current." + o2.Class) {
+		c.Sample("outer-current."+o2.Class, map[string]any{"filter": t1, "with-root": t2, "doc": docTxt, "result": o1.Summary()})
+	}
+}
+
+// outerCurrentChain builds @ STEPS where a nested filter (or nested subscript)
+// is followed by steps that mention @ again.
+func outerCurrentChain(g *gen.G) *gen.N {
+	r := g.R
+	chain := &gen.N{K: gen.KCurrent}
+	if r.IntN(3) == 0 {
+		// free form
+		for j := 1 + r.IntN(4); j > 0; j-- {
+			chain.Append(g.Step(2, true, false))
+		}
+		return chain
+	}
+	key := func() *gen.N { return &gen.N{K: gen.KKey, S: g.C.Keys[r.IntN(len(g.C.Keys))]} }
+	atExpr := func() *gen.N {
+		e := &gen.N{K: gen.KCurrent}
+		switch r.IntN(5) {
+		case 0:
+			e.Append(&gen.N{K: gen.KMethod, S: "size"})
+		case 1:
+			e.Append(key())
+			e.Append(key())
+		default:
+			e.Append(key())
+		}
+		if r.IntN(4) == 0 {
+			return &gen.N{K: gen.KBin, S: []string{"+", "-"}[r.IntN(2)], A: e, B: &gen.N{K: gen.KInt, I: int64(r.IntN(2))}}
+		}
+		return e
+	}
+	for j := r.IntN(3); j > 0; j-- {
+		if r.IntN(4) == 0 {
+			chain.Append(&gen.N{K: gen.KAnyArray})
+		} else {
+			chain.Append(key())
+		}
+	}
+	if r.IntN(4) > 0 {
+		chain.Append(&gen.N{K: gen.KFilter, A: g.Pred(1, true, false)})
+	} else {
+		chain.Append(&gen.N{K: gen.KIndex, Subs: [][2]*gen.N{{atExpr(), nil}}})
+	}
+	for j := r.IntN(2); j > 0; j-- {
+		chain.Append(key())
+	}
+	sub := [2]*gen.N{atExpr(), nil}
+	if r.IntN(4) == 0 {
+		sub[1] = &gen.N{K: gen.KLast}
+	}
+	chain.Append(&gen.N{K: gen.KIndex, Subs: [][2]*gen.N{sub}})
+	if r.IntN(3) == 0 {
+		chain.Append(g.Step(1, true, false))
+	}
+	return chain
+}
+
+// outerCurrentDoc: an object whose members and whose nested objects carry
+// small integers under the same keys, so that @.k differs between levels.
+func outerCurrentDoc(r *rand.Rand, keys []string) string {
+	var obj func(depth int) string
+	val := func(depth int) string {
+		switch x := r.IntN(10); {
+		case x < 4:
+			return fmt.Sprint(r.IntN(3))
+		case x < 7 && depth > 0:
+			n := 1 + r.IntN(3)
+			parts := make([]string, n)
+			for i := range parts {
+				if r.IntN(2) == 0 && depth > 1 {
+					parts[i] = obj(depth - 1)
+				} else {
+					parts[i] = fmt.Sprint(10 * (i + 1))
+				}
+			}
+			return "[" + strings.Join(parts, ",") + "]"
+		case x < 9 && depth > 0:
+			return obj(depth - 1)
+		}
+		return []string{`"a"`, "true", "null"}[r.IntN(3)]
+	}
+	obj = func(depth int) string {
+		var parts []string
+		for _, k := range keys {
+			if r.IntN(4) > 0 {
+				parts = append(parts, fmt.Sprintf("%q:%s", k, val(depth)))
+			}
+		}
+		return "{" + strings.Join(parts, ",") + "}"
+	}
+	return obj(3)
+}
+
 func replayC09(c *h.Ctx, cs h.Case) {
 	switch cs.Kind {
 	case "split":
@@ -273,6 +445,18 @@ func replayC09(c *h.Ctx, cs h.Case) {
 		var split int
 		fmt.Sscan(cs.Extra["split"], &split)
 		checkSplit(c, &c09Case{lax: ap.Lax, chain: ap.Root, split: split, doc: cs.Doc, useNum: cs.UseNum, tz: cs.TZ, vars: cs.Vars})
+	case "outer-current":
+		p, err, pan := h.ParseSafe(cs.Path)
+		if err != nil || pan != "" {
+			c.Note("replay: path does not parse")
+			return
+		}
+		ap := gen.FromAST(p.AST)
+		if ap.Root.Next == nil || ap.Root.Next.K != gen.KFilter || ap.Root.Next.A == nil || ap.Root.Next.A.A == nil {
+			c.Note("replay: not a $ ? (exists(...)) path")
+			return
+		}
+		checkOuterCurrent(c, ap.Lax, ap.Root.Next.A.A, cs.Doc, cs.UseNum, cs.Vars)
 	case "head":
 		p, err, pan := h.ParseSafe(cs.Path)
 		if err != nil || pan != "" {
@@ -349,6 +533,31 @@ func runC09(c *h.Ctx) {
 				continue
 			}
 			checkSplit(c, &c09Case{lax: lax, chain: chain, split: split, doc: doc, useNum: useNum, tz: tz, vars: vars})
+		}
+		// @ after nested constructs inside a filter
+		if i%2 == 0 {
+			oc := outerCurrentChain(g)
+			ocp := &gen.Path{Root: oc}
+			switch {
+			case idsFlow(oc) || hasMethod(oc, "keyvalue") && exposesOrder(ocp):
+				c.Skip("outer-current", "keyvalue-ids-or-member-order")
+			default:
+				var od string
+				if exposesOrder(ocp) {
+					dd := dc
+					dd.MaxMembers = 1
+					od = gen.Doc(r, dd)
+				} else if r.IntN(3) == 0 {
+					od = gen.Doc(r, dc)
+				} else {
+					od = outerCurrentDoc(r, g.C.Keys)
+				}
+				v := stdVars
+				if exposesOrder(ocp) {
+					v = stdVars1
+				}
+				checkOuterCurrent(c, lax, oc, od, useNum, v)
+			}
 		}
 		// variable / literal heads
 		if i%4 == 0 {
